@@ -86,3 +86,63 @@ PROPS["C03"] = {
     "assumptions": ["each Read returns at least one byte or an error (io.Reader contract; Script.wf)", "the transport's error is sticky once reported"],
     "rule": "stream seg: 10 small bodies (plain, empty, compressed, end-stream, trailer frames, incomplete prefix) x ALL segmentations x both EOF styles; 150 (2500 thorough) generated multi-frame bodies x {one piece, 1-byte chunks, adversarial cuts in every prefix and around every boundary, 6 random cut sets} x tails {eof, unexpected EOF, transport error, coded errors} x limits; each op is compared with the model on the flat bytes and with one-piece delivery.",
 }
+
+PROPS["C01"] = {
+    "title": "Every message sent is received intact, in order, exactly once",
+    "lean_module": "ConnectProofs.C01",
+    "theorems": [
+        "ConnectModel.envRead_frame",
+        "ConnectModel.C01.unmarshal_marshal",
+        "ConnectModel.C01.recvAll_prefix",
+        "ConnectModel.C01.stream_roundtrip_flat",
+        "ConnectModel.C01.stream_roundtrip",
+        "ConnectModel.C01.compress_flag_iff",
+    ],
+    "streams": ["roundtrip"],
+    "design_ref": "DESIGN.md §5 C01, §6 F1",
+    "technique": "Lean 4 refinement proof: envelopeWriter.Marshal followed by envelopeReader.Unmarshal (fresh message per call) yields the messages sent, for any codec/compressor satisfying their laws, any compressMinBytes, any segmentation + differential correspondence of the real envelope writer/reader and end-to-end calls through the public API",
+    "level_text": "Machine-checked proof at the envelope layer (shared by all three protocols and both directions): for every finite message sequence, codec and compression algorithm obeying the round-trip laws, any compress-min-bytes (negative included) and any transport segmentation, the receive loop yields exactly the sent values in order - the zero-length shortcut delivering the zero value into the fresh per-Receive message - and then the clean end of stream. The model is tied to the code by running the real envelopeWriter/envelopeReader (verif hook) and, at the protocol level, real client<->handler calls over the public API in all protocols/kinds (stream e2e).",
+    "level_note": "Trusted: Lean kernel; codec/compressor laws (proto, protojson, gzip are sampled, not proved); harness. Pooled-buffer aliasing is invisible in a value model: C13 covers it (buffers are poisoned on release under the verif tag, so an alias shows up here as a payload mismatch). HTTP-version specific behaviour is net/http's.",
+    "assumptions": ["Codec: unmarshal(marshal v) = v and only the zero value has the empty encoding", "Compressor: decompress(compress b) = b and compress b = [] only for b = []", "payload lengths < 2^32"],
+    "rule": "stream roundtrip: 500 (8000 thorough) generated message sequences (0..6 messages; sizes 0,1,2..5, up to 1500; zero-valued messages forced after non-zero ones; runs that compress well) x {no compression, RLE} x compress-min-bytes in {-1,0,1,3,10,100,1024} x optional terminator envelope; the wire bytes are compared with the model, then read back under a random segmentation and compared with the model and with what was written.",
+}
+
+PROPS["C04"] = {
+    "title": "A call succeeds only if the peer's end-of-stream marker arrived",
+    "lean_module": "ConnectProofs.C04",
+    "theorems": [
+        "ConnectModel.C04.cut_inside_prefix",
+        "ConnectModel.C04.cut_inside_payload",
+        "ConnectModel.C04.failure_at_boundary",
+        "ConnectModel.C04.clean_end_only_at_boundary",
+        "ConnectModel.C04.truncated_stream",
+    ],
+    "streams": ["cut"],
+    "design_ref": "DESIGN.md §5 C04, §6 F2/F3",
+    "technique": "Lean 4 theorems over the envelope reader model: any cut strictly inside a frame and any transport failure yields an error that does not wrap io.EOF, after exactly the messages sent before it + differential correspondence of the real envelope reader at every cut offset x endings, and protocol-level cut/terminator checks through real clients",
+    "level_text": "Machine-checked proof at the envelope layer for every cut offset and every ending (clean EOF, unexpected EOF, transport error, coded error): a stream that stops inside the 5-byte prefix or inside a payload, or that fails at a frame boundary, makes Read fail with an error that does not wrap io.EOF (so handlers never see a clean end and clients never report success), the messages delivered before are exactly those sent before; only a clean EOF at a frame boundary is the end-of-stream result. Partial: the protocol-level terminators (gRPC trailers, gRPC-Web trailer frame, Connect end-stream envelope) are checked by the protocol-level stream through real clients with every cut offset, not yet as Lean theorems; write failures are sampled.",
+    "level_note": "Trusted: Lean kernel; harness; net/http's framing for unary Connect bodies (a clean EOF at a cut offset is indistinguishable from a shorter complete body). 'Nothing hangs' is C14.",
+    "assumptions": ["the only EOF-wrapping coded error a body read can return is the one the library installs after the terminator was seen (PlainTail)"],
+    "not_proved": ["protocol-level terminator logic as Lean theorems (covered by the differential stream)", "k-th write failure"],
+    "rule": "stream cut: 120 (1500 thorough) generated bodies (0..5 frames, plain/RLE) x EVERY cut offset 0..len x {clean EOF at every offset; unexpected EOF and transport error at every third offset and at the end} x random segmentation; oracle: clean end only at a frame boundary with clean EOF, delivered messages are a prefix of those sent, code non-zero.",
+}
+
+PROPS["C09"] = {
+    "title": "Read limits are enforced exactly, before a message reaches user code",
+    "lean_module": "ConnectProofs.C09",
+    "theorems": [
+        "ConnectModel.C09.payloadLoop_length",
+        "ConnectModel.C09.read_within_limit",
+        "ConnectModel.C09.oversize_wire_rejected",
+        "ConnectModel.C09.decompress_within_limit",
+        "ConnectModel.C09.decompressed_oversize_rejected",
+        "ConnectModel.C09.no_oversize_delivery",
+    ],
+    "streams": ["limit"],
+    "design_ref": "DESIGN.md §5 C09",
+    "technique": "Lean 4 theorems over the envelope reader model with a ghost buffer counter: for any bytes a peer sends, nothing decoded from more than N bytes is delivered and at most 2N+1 bytes are buffered per message + differential correspondence of the real envelope reader (sizes around N, lying prefixes, expanding payloads) and allocation measurements with gzip bombs",
+    "level_text": "Machine-checked proof for all N >= 1 and all byte strings/endings a peer can send: a frame returned by Read has at most N payload bytes and the buffer is grown by at most N (the limit check precedes Grow, so a lying prefix allocates nothing); decompression hands at most N bytes to the codec and buffers at most N+1; hence a delivered message was decoded from at most N bytes and at most 2N+1 bytes were buffered for it; a frame of more than N wire bytes, or expanding to more than N, is rejected with invalid_argument at any stream position. Acceptance of everything within N is C01's round-trip theorem (hypothesis Fits). The ghost counter is tied to the code by allocation measurements (runtime.MemStats) on lying prefixes and a 24 MiB gzip bomb.",
+    "level_note": "Trusted: Lean kernel; harness; that bytes.Buffer.Grow / ReadFrom(LimitReader) allocate what the ghost counter says (sampled by allocation measurement, threshold 8N + 3*len(input) + 1 MiB). Unary Connect bodies (LimitReader on the body) are checked at the protocol level.",
+    "assumptions": ["a streaming decompressor yields its output incrementally (gzip does)"],
+    "rule": "stream limit: N in {1,2,5,16,100,255,256,1024}(+4096,65536 thorough) x sizes {0,1,N-1,N,N+1,2N+3,10N} x {plain, RLE-compressed constant (tiny wire), RLE-compressed random} x stream position 0..2; lying prefixes (declared N+1 .. 2^32-1, multiples of 2^8/2^16/2^24, present 0..N bytes) x endings; 400 (6000) random mixes; gzip bomb + lying-prefix allocation probes.",
+}
